@@ -619,6 +619,28 @@ func checkEnvValues(c *report.Ctx) {
 			}
 		})
 		c.Check("R-WIRE", an.FuncName(f)+"/rejoin", "the process receives each variable as key + \"=\" + value", ok, fpos(f), 1, "%v", ok)
+		// the child's environment is built from the request's map alone: nothing of the emulator's own process
+		// environment is mixed in (it holds exactly the variables the extension filter removed)
+		var amb []string
+		for _, g := range an.WithAnon(f) {
+			for _, call := range an.Calls(g, func(s string) bool {
+				return oneOf(s, "os.Environ", "os/exec.Cmd.Environ", "os.Getenv", "os.LookupEnv", "os.ExpandEnv", "syscall.Environ")
+			}) {
+				amb = append(amb, an.Callee(call))
+			}
+		}
+		nenv := 0
+		okSrc := true
+		for _, st := range an.Stores(f, "os/exec.Cmd", "Env") {
+			nenv++
+			for _, o := range newWire(c, nil, map[string]int{"builtin.append": 0}).Origins(st.Val) {
+				if !strings.HasPrefix(o, "op:") && !strings.HasPrefix(o, "const:") && !strings.HasPrefix(o, "alloc:") && o != "call:builtin.append#0" {
+					okSrc = false
+					amb = append(amb, "Env <- "+o)
+				}
+			}
+		}
+		c.Check("R-WIRE", an.FuncName(f)+"/child-env-only-from-request", "the started process gets exactly the variables of the request (a fresh slice filled from req.Env), none inherited from the emulator's own environment", len(amb) == 0 && nenv >= 1 && okSrc, fpos(f), nenv+1, "stores to Cmd.Env: %d; ambient-environment reads or foreign sources: %v", nenv, amb)
 	}
 }
 
